@@ -141,3 +141,33 @@ Proof.
   intros H. unfold env_op. simpl. rewrite H. apply lookup_add_value_at.
   unfold to_path. destruct (String.eqb path ""); [discriminate|]. destruct path; discriminate.
 Qed.
+
+(* ---------- templateFile *)
+(* at the root it writes exactly the rendering of the file's text against the data *)
+Theorem template_file_root t file output data :
+  file <> ""%string -> output <> ""%string ->
+  template_file_op (Some t) file output None data = TFWritten (render t data).
+Proof.
+  intros Hf Ho. unfold template_file_op.
+  destruct (String.eqb_spec file ""); [contradiction|]. destruct (String.eqb_spec output ""); [contradiction|]. reflexivity.
+Qed.
+
+(* with a path: the rendering against the container found there *)
+Theorem template_file_at_path t file output p data kvs :
+  file <> ""%string -> output <> ""%string -> lookup p (Con data) = Some (Con kvs) ->
+  template_file_op (Some t) file output (Some p) data = TFWritten (render t kvs).
+Proof.
+  intros Hf Ho L. unfold template_file_op, template_file_scope. rewrite L.
+  destruct (String.eqb_spec file ""); [contradiction|]. destruct (String.eqb_spec output ""); [contradiction|]. reflexivity.
+Qed.
+
+(* it fails exactly when a name is missing, the template cannot be read, or the path does not lead to a mapping *)
+Theorem template_file_fails_iff t file output path data :
+  template_file_op t file output path data = TFErr <->
+  file = ""%string \/ output = ""%string \/ t = None \/ template_file_scope path data = None.
+Proof.
+  unfold template_file_op. destruct (String.eqb_spec file "") as [->|Nf]; [tauto|].
+  destruct (String.eqb_spec output "") as [->|No]; [tauto|].
+  destruct (template_file_scope path data) as [d|]; [|tauto]. destruct t as [t|]; [|tauto].
+  split; [discriminate|]. intros [H|[H|[H|H]]]; try contradiction; discriminate.
+Qed.
